@@ -21,6 +21,7 @@ import (
 
 	"github.com/mmcloughlin/addchain"
 	"github.com/mmcloughlin/addchain/acc"
+	"github.com/mmcloughlin/addchain/acc/ast"
 	"github.com/mmcloughlin/addchain/acc/ir"
 	"github.com/mmcloughlin/addchain/acc/parse"
 	"github.com/mmcloughlin/addchain/acc/pass"
@@ -175,20 +176,36 @@ func c06RandScript(r *RNG, nStmts int, weird bool) string {
 var c06Alloc = pass.Allocator{Input: "x", Output: "z", Format: "t%d"}
 
 func c06Case(g *Gen, text string) bool {
-	ch, err := parse.String(text)
+	var ch *ast.Chain
+	var loaded *ir.Program
+	var err, lerr error
+	irDump, preNames := "err", "-"
+	if pn := safe(func() {
+		ch, err = parse.String(text)
+		if err != nil {
+			return
+		}
+		loaded, lerr = acc.LoadString(text)
+		if lerr != nil {
+			return
+		}
+		if p, e := acc.Translate(ch); e == nil {
+			irDump = c05DumpIR(p)
+			preNames = c05PreNames(p)
+		}
+	}); pn != "" {
+		if !g.notesViolation() {
+			g.Notes = append(g.Notes, "VIOLATION: loading the script "+encHex(text)+" panics: "+pn)
+		}
+		return false
+	}
 	if err != nil {
 		g.Count("skip-parse-error")
 		return false
 	}
-	loaded, err := acc.LoadString(text)
-	if err != nil {
+	if lerr != nil {
 		g.Count("skip-not-loadable")
 		return false
-	}
-	irDump, preNames := "err", "-"
-	if p, err := acc.Translate(ch); err == nil {
-		irDump = c05DumpIR(p)
-		preNames = c05PreNames(p)
 	}
 	chain := encInts(loaded.Chain)
 	ops := encOps(loaded.Program)
